@@ -14,6 +14,7 @@ from fractions import Fraction as Fr
 
 import framework as fw
 import genlayer as gl
+import gen_inputs as gi
 import genrun
 
 UNITS = ["CC", "C(C)C", "OCC", "C(F)C", "NC", "SC"]
@@ -55,7 +56,8 @@ def check(rep):
     quick = rep.tier == "quick"
     rnd = random.Random(rep.seed + 8)
     cases, stats = genrun.collect(rep, 120 if quick else 6000, 10 if quick else 300, max_leaves=150 if quick else 2000,
-                                  budget_s=100 if quick else 1500)
+                                  budget_s=100 if quick else 1500,
+                                  extra_natural=gi.cases(rep.seed + 88, 16 if quick else 400, archetypes=["lone_zero_weight", "twin_units"]))   # rare triggers: a fixed share
     choices = 0
     distinct = set()
     # (d) the law of the notation at EVERY decision: the model's Choice events are that law (C08_law_proportional, C08_transition_list,
@@ -84,6 +86,13 @@ def check(rep):
                          expected="probability vector, taken option has positive probability", observed=p)
             if len(p) > 1 and len(set(p)) > 1:
                 distinct.add((c.text, tuple(c.run.picks[:n + 1])))
+    # a decision that cannot be made at all: the probability vector handed to the generator is not one (nan, negative, not normalised) and numpy
+    # refuses it -- the run ends with that error before the decision is recorded
+    for c in cases:
+        err = getattr(c.run, "error", None)
+        if err is not None and "robabilit" in str(err):
+            rep.fail("oracle", f"a random decision was handed an invalid probability vector ({type(err).__name__ if not isinstance(err, str) else 'error'}: {str(err)[:80]}) "
+                     f"after {len(c.run.rng.log)} recorded decision(s)", c.ident(), expected="a probability vector following the written weights", observed=str(err)[:80])
     # (b) closed-form family, complete choice trees
     fam = 0
     fam_leaves = 0
